@@ -231,22 +231,22 @@ def genStmt (cx : Ctx) : Ir.Stmt → Except GenErr HlslAst.Stmt
     match genVarDef cx id init with
     | .error e => .error e
     | .ok (tn, name, i) => .ok (.var tn name i)
-  | .block b => (genStmts cx b).map .block
+  | .block b => (genStmtsAcc cx b .nil).map .block
   | .ifThen c b =>
     match genExpr cx c with
     | .error e => .error e
     | .ok c' =>
-      match genStmts cx b with
+      match genStmtsAcc cx b .nil with
       | .error e => .error e
       | .ok b' => .ok (.ifThen c' (.block b'))
   | .ifElse c t f =>
     match genExpr cx c with
     | .error e => .error e
     | .ok c' =>
-      match genStmts cx t with
+      match genStmtsAcc cx t .nil with
       | .error e => .error e
       | .ok t' =>
-        match genStmts cx f with
+        match genStmtsAcc cx f .nil with
         | .error e => .error e
         | .ok f' => .ok (.ifElse c' (.block t') (.block f'))
   | .for init cond inc b =>
@@ -259,18 +259,18 @@ def genStmt (cx : Ctx) : Ir.Stmt → Except GenErr HlslAst.Stmt
         match genOptExpr cx inc with
         | .error e => .error e
         | .ok inc' =>
-          match genStmts cx b with
+          match genStmtsAcc cx b .nil with
           | .error e => .error e
           | .ok b' => .ok (.for init' cond' inc' (.block b'))
   | .while c b =>
     match genExpr cx c with
     | .error e => .error e
     | .ok c' =>
-      match genStmts cx b with
+      match genStmtsAcc cx b .nil with
       | .error e => .error e
       | .ok b' => .ok (.while c' (.block b'))
   | .doWhile b c =>
-    match genStmts cx b with
+    match genStmtsAcc cx b .nil with
     | .error e => .error e
     | .ok b' =>
       match genExpr cx c with
@@ -279,17 +279,30 @@ def genStmt (cx : Ctx) : Ir.Stmt → Except GenErr HlslAst.Stmt
   | .break => .ok .break
   | .continue => .ok .continue
   | .ret e => (genOptExpr cx e).map .ret
-/-- `generate_scope_block` (no case labels in the subset) -/
-def genStmts (cx : Ctx) : Ir.Stmts → Except GenErr HlslAst.Stmts
-  | .nil => .ok .nil
-  | .cons s r =>
+  | .switch _ c b =>
+    match genExpr cx c with
+    | .error e => .error e
+    | .ok c' =>
+      match genStmtsAcc cx b .nil with
+      | .error e => .error e
+      | .ok b' => .ok (.switch c' (.block b'))
+  | .caseLabel c =>
+    -- "We use an empty statement as the syntax requires a statement after a label … removed in generate_scope_block"
+    match genLiteral c with
+    | .error e => .error e
+    | .ok e => .ok (.caseLabel e .empty)
+  | .defaultLabel => .ok (.defaultLabel .empty)
+/-- the loop of `generate_scope_block`: `acc` = the statements pushed so far -/
+def genStmtsAcc (cx : Ctx) : Ir.Stmts → HlslAst.Stmts → Except GenErr HlslAst.Stmts
+  | .nil, acc => .ok acc
+  | .cons s r, acc =>
     match genStmt cx s with
     | .error e => .error e
-    | .ok s' =>
-      match genStmts cx r with
-      | .error e => .error e
-      | .ok r' => .ok (.cons s' r')
+    | .ok s' => genStmtsAcc cx r (HlslAst.pushStmt acc s')
 end
+
+/-- `generate_scope_block` -/
+def genStmts (cx : Ctx) (b : Ir.Stmts) : Except GenErr HlslAst.Stmts := genStmtsAcc cx b .nil
 
 def genParams (cx : Ctx) : List (Nat × Ir.Dir × Ty) → Except GenErr (List (String × Ir.Dir × String))
   | [] => .ok []
